@@ -81,10 +81,14 @@ def state_of(b, brokers, shared):
         for c, lst in br.exceptions.items():
             if not lst:
                 continue
-            i = b.index.get(c, repr(c))
+            i = b.index.get(c)
+            if i is None:
+                raise Violation("an exception is recorded for a component outside the graph: %r" % (c,))
             excs.setdefault(i, []).extend((type(e).__name__, str(e)) for e in lst)
         for c, m in br.missing_requirements.items():
-            i = b.index.get(c, repr(c))
+            i = b.index.get(c)
+            if i is None:
+                raise Violation("missing dependencies are reported for a component outside the graph: %r" % (c,))
             miss[i] = _canon_missing(([b.index.get(x, repr(x)) for x in m[0]],
                                       [[b.index.get(x, repr(x)) for x in g] for g in m[1]]))
     excs = dict((k, sorted(v)) for k, v in excs.items())
